@@ -43,6 +43,7 @@ type Contract struct {
 	SafeKinds map[string]bool
 	Modular  bool // never inline at call sites even if it has no ensures
 	Transparent bool // callers that can inline the body do so instead of using the postconditions
+	ByContract map[string]bool // transparent callees (by short name) that this function uses through their contract
 	NoBody   bool
 	SitesOnly bool
 	EosExit  bool
@@ -81,7 +82,7 @@ type SpecFunc struct {
 	Opaque bool
 }
 
-var kwRe = regexp.MustCompile(`^(func|spec|readers|writers|callers|stateless|between|paired|deferredonly|safederef|preserved|internal|inline|eosexit|requires|ensures|decreases|loop|safe|modular|transparent|terminates|witness|witnessgo|unordered|usesonly|mapwrite|globalstore|callsite|nobody|sitesonly|end)\b`)
+var kwRe = regexp.MustCompile(`^(func|spec|readers|writers|callers|stateless|between|paired|deferredonly|safederef|preserved|internal|inline|eosexit|requires|ensures|decreases|loop|safe|modular|transparent|bycontract|terminates|witness|witnessgo|unordered|usesonly|mapwrite|globalstore|callsite|nobody|sitesonly|end)\b`)
 
 func (e *Engine) loadContracts() error {
 	e.contracts = map[string]*Contract{}
@@ -349,6 +350,13 @@ func (e *Engine) parseContractFile(file, pkgPath, data string) error {
 			cur.Modular = true
 		case "transparent":
 			cur.Transparent = true
+		case "bycontract":
+			if cur.ByContract == nil {
+				cur.ByContract = map[string]bool{}
+			}
+			for _, n := range strings.FieldsFunc(rest, func(r rune) bool { return r == ',' || r == ' ' }) {
+				cur.ByContract[n] = true
+			}
 		case "inline":
 			// inline <max blocks> <max depth>: how far callees without contract are inlined
 			if len(fields) >= 3 {
@@ -553,6 +561,7 @@ type SpecEnv struct {
 	depth  int
 	seen   string // loop clauses of a map-range loop: ghost location of the keys produced so far
 	seenK  types.Type
+	self   *ssa.Function // the function whose contract is being evaluated (nil: the function under verification)
 }
 
 func (env *SpecEnv) with(st *State) *SpecEnv {
@@ -928,6 +937,15 @@ func (env *SpecEnv) call(x *ast.CallExpr) Val {
 		// a whole object (references of objects are positive, interior references negative) beyond the frontier
 		vc.elemRef(app("elem_arr", v.t), app("elem_idx", v.t))
 		return Val{t: app(">", v.t, vc.he.get(env.old, "ALLOC", "Int")), typ: boolT}
+	case "valueof": // valueof(p): the whole struct value p points to (a package-level struct variable denotes its address)
+		v := env.rv(env.eval(x.Args[0]))
+		pt, ok := v.typ.Underlying().(*types.Pointer)
+		if !ok || !isStruct(pt.Elem()) {
+			specErr("valueof() needs a pointer to a struct (or a package-level struct variable)")
+		}
+		return env.inState(func() Val {
+			return Val{t: f.gather(pt.Elem(), v.t), typ: pt.Elem()}
+		})
 	case "whole": // whole(p): p points to an allocated object itself, not into one (not a slice element or embedded struct)
 		v := env.rv(env.eval(x.Args[0]))
 		if _, ok := v.typ.Underlying().(*types.Pointer); !ok {
@@ -1082,7 +1100,11 @@ func (env *SpecEnv) call(x *ast.CallExpr) Val {
 		for _, a := range x.Args {
 			args = append(args, env.rv(env.eval(a)))
 		}
-		return env.pureCallBody(vc.top, args)
+		self := vc.top
+		if env.self != nil {
+			self = env.self // a callee's postcondition assumed at a call site speaks about the callee
+		}
+		return env.pureCallBody(self, args)
 	case "offof": // offset of a slice inside its backing array
 		v := env.rv(env.eval(x.Args[0]))
 		return Val{t: app("s_off", v.t), typ: intT}
